@@ -11,6 +11,12 @@ ENGINES = {
                   files=["mesim_test.go"], kind="sequential virtual-clock simulation of MultiEndpoint vs reference state machine"),
     "keys": dict(module="grpcgcp", pkg=".", pkgname="grpcgcp", pkgmarker="grpcgcp.", harness="grpcgcp",
                  files=["keys_test.go"], kind="generated Go values x locators vs independent reference traversal"),
+    "prober": dict(module="spanner_prober", pkg="prober", pkgname="prober", pkgmarker="prober.", harness="prober",
+                   kind="generated inputs vs arithmetic / reference parser (package spanner_prober/prober)"),
+    "flags": dict(module="spanner_prober", pkg=".", pkgname="main", pkgmarker="main.", harness="probermain",
+                  kind="generated flag values through validateFlags (package main of spanner_prober)"),
+    "codec": dict(module="e2e-checksum", pkg=".", pkgname="main", pkgmarker="main.", harness="codec",
+                  kind="generated protobuf messages vs independent wire-format + CRC32C reference"),
 }
 
 POOLSIM_ESSENTIAL = {
@@ -80,6 +86,23 @@ PROPS["C11"] = dict(level="exploration",
                  essential={"C11": ["C11.total", "C11.exact-keys", "C11.fan-out", "C11.empty-repeated", "C11.error-expected", "C11.ambiguous-shape-total", "C11.proto-message"]},
                  timeout=dict(quick=900, thorough=7200))])
 
+PROPS["C18"] = dict(level="exploration",
+    rule="seeded inputs: (base,max,retries) triples in a realistic and an extreme stratum; header/trailer metadata pairs from a grammar; payload sizes; flag sets of arbitrary strings/numbers pushed through validateFlags, the accepted ones re-checked against the resource-name builders, ParseProbeType and probeInterval; non-trivial = backoff strictly between base and max / a GFE entry the reference parses / an accepted flag set; distinct = hash of the input",
+    assumptions=["flag values are written into the flag variables directly (flag.Parse is not involved)",
+                 "the accepted flag sets found in package main are replayed in package prober through a file in the work directory"],
+    stages=[dict(name="flags", engine="flags", test="TestVerifFlags", batches=dict(quick=4, thorough=16),
+                 essential={"C18": ["C18.validate-flags", "C18.flags-accepted", "C18.flags-rejected"]}, timeout=dict(quick=900, thorough=7200)),
+            dict(name="prober", engine="prober", test="TestVerifProber", batches=dict(quick=4, thorough=16),
+                 essential={"C18": ["C18.backoff:realistic", "C18.backoff:extreme-arith", "C18.gfe-parse", "C18.gfe-header-preferred", "C18.gfe-trailer",
+                                    "C18.gfe-error-expected", "C18.payload", "C18.resource-name", "C18.probe-interval", "C18.probe-interval:extreme", "C18.probe-type"]},
+                 timeout=dict(quick=900, thorough=7200))])
+PROPS["C19"] = dict(level="exploration",
+    rule="seeded protobuf messages (Empty, Struct/Value/ListValue recursive, FileDescriptorProto, Any, wrappers, up to 100kB strings, injected unknown fields incl. field 2047) through myCodec.Marshal with a recording inner codec; non-trivial = a successfully marshalled message compared byte-for-byte with the reference and decoded twice; distinct = (kind, crc, payload length)",
+    assumptions=["reference wire format: protowire.AppendTag(2047, Fixed32Type) + little-endian crc32.Castagnoli of the exact bytes the inner codec returned for this call",
+                 "equality of the decoded message is modulo the prepended unknown field 2047"],
+    stages=[dict(name="codec", engine="codec", test="TestVerifCodec", batches=dict(quick=4, thorough=16),
+                 essential={"C19": ["C19.marshal", "C19.decode:codec", "C19.decode:proto", "C19.error-pass-through"]}, timeout=dict(quick=900, thorough=7200))])
+
 NOT_APPLICABLE = {}
 
 _POOL_NOTE = ("Trusted: the harness's shadow of the contract, the fake ClientConn/SubConn (gRPC 1.56 calling discipline), the build-time "
@@ -113,3 +136,10 @@ MANIFEST_TEXT["C14"] = dict(technique="runtime monitoring: admissible-set safety
 MANIFEST_TEXT["C11"] = dict(technique="runtime monitoring: differential oracle (independent reference traversal) + panic monitor over generated values and locators",
     design_ref="DESIGN.md §5 C11", level_note="Trusted: the reference traversal and the value generator (reflect.StructOf); three-valued on shapes the statement leaves open. Held = held on the generated (value, locator) pairs.",
     level_text="Exploration: >100k generated (Go value, locator) pairs per quick run; the result of getAffinityKeysFromMessage must equal the reference's keys in order, or be an error where the reference says error, and must never panic (also on ambiguous shapes); protobuf messages with nil entries are included.")
+
+MANIFEST_TEXT["C18"] = dict(technique="runtime monitoring: arithmetic/reference-parser oracles and a panic/termination monitor over generated inputs (two strata)",
+    design_ref="DESIGN.md §3.2, §5 C18", level_note="Trusted: the reference GFE parser (big.Int arithmetic), sha256, the harness's copy of flag values into the flag variables. Held = held on the generated inputs.",
+    level_text="Exploration: >100k generated inputs per quick run; backoff must satisfy base <= b(n) <= max and b(n) <= b(n+1) and return; parseT4T7Latency must equal the reference (header before trailer, first gfet4t7 entry, base-10 int64 ms, representable) and never panic; every flag set accepted by validateFlags must give resource names whose '/'-segments are exactly the supplied values, a parsable probe type and a strictly positive probe interval; payload hash = sha256.")
+MANIFEST_TEXT["C19"] = dict(technique="runtime monitoring: differential oracle (independent wire-format/CRC32C reference) over generated protobuf messages",
+    design_ref="DESIGN.md §5 C19", level_note="Trusted: protowire, hash/crc32, proto.Equal/proto.Unmarshal as the conforming parser. Held = held on the generated messages.",
+    level_text="Exploration: tens of thousands of generated messages per quick run; Marshal output must be byte-identical to FD 7F || le32(crc32c(b)) || b for the bytes b the inner codec produced in this call; decoding the output with the codec and with proto.Unmarshal must give the original known fields and the checksum field prepended to the original unknown fields; inner codec errors must be returned unchanged.")
